@@ -33,15 +33,31 @@ func (fr *Frame) loopFrames(li *loopInfo) map[string][]Term {
 		}
 		bases[name] = append(bases[name], t)
 	}
+	touch := func(name string) {
+		if _, ok := bases[name]; !ok {
+			bases[name] = nil
+		}
+	}
 	for b := range li.blocks {
 		for _, in := range b.Instrs {
 			switch x := in.(type) {
 			case *ssa.Store:
+				if rootAllocIn(li, x.Addr) {
+					// a variable declared inside the loop body: a fresh object in every iteration
+					for _, n := range fr.staticHeapNames(x.Addr) {
+						touch(n)
+					}
+					continue
+				}
 				names := fr.staticHeapNames(x.Addr)
 				ok := false
 				switch a := x.Addr.(type) {
 				case *ssa.IndexAddr:
-					if outside(a.X) {
+					if base, okb := fr.stableSliceField(li, a.X, outside); okb {
+						// element store into a slice held in a field that the loop never rewrites
+						add(names[0], base)
+						ok = true
+					} else if outside(a.X) {
 						bv := fr.val(a.X)
 						switch a.X.Type().Underlying().(type) {
 						case *types.Slice:
@@ -66,7 +82,18 @@ func (fr *Frame) loopFrames(li *loopInfo) map[string][]Term {
 						}
 						break
 					}
-					if outside(root.X) {
+					if ia, isIA := root.X.(*ssa.IndexAddr); isIA && len(names) == 1 && strings.HasPrefix(names[0], "M|") {
+						// field of an element of a slice held in a stable field, or of a loop-invariant slice
+						if base, okb := fr.stableSliceField(li, ia.X, outside); okb {
+							add(names[0], base)
+							ok = true
+						} else if outside(ia.X) {
+							if _, isSl := ia.X.Type().Underlying().(*types.Slice); isSl {
+								add(names[0], vc.slice(fr.val(ia.X)).Base)
+								ok = true
+							}
+						}
+					} else if outside(root.X) {
 						if _, isPtr := root.X.Type().Underlying().(*types.Pointer); isPtr {
 							bv := fr.val(root.X)
 							if bv.P == nil && len(names) == 1 {
@@ -87,6 +114,47 @@ func (fr *Frame) loopFrames(li *loopInfo) map[string][]Term {
 				unrestricted[d], unrestricted[v], unrestricted["ML"] = true, true, true
 			case *ssa.Go:
 			case ssa.CallInstruction:
+				if bi, isB := x.Common().Value.(*ssa.Builtin); isB {
+					args := x.Common().Args
+					if bi.Name() == "copy" && len(args) > 0 && rootAllocIn(li, args[0]) {
+						if sl, isSl := args[0].(*ssa.Slice); isSl {
+							for _, n := range fr.staticHeapNames(sl.X) {
+								touch(n)
+							}
+							if st, isS := args[0].Type().Underlying().(*types.Slice); isS {
+								touch(vc.memName(st.Elem()))
+							}
+							continue
+						}
+					}
+					if bi.Name() == "copy" && len(args) > 0 {
+						// copy into a window of a slice held in a field that the loop never rewrites
+						if sl, isSl := args[0].(*ssa.Slice); isSl {
+							if base, okb := fr.stableSliceField(li, sl.X, outside); okb {
+								if st, isS := args[0].Type().Underlying().(*types.Slice); isS {
+									add(vc.memName(st.Elem()), base)
+									continue
+								}
+							}
+						}
+					}
+					if bi.Name() == "append" && len(args) > 0 {
+						if base, okb := fr.appendOnlyField(li, args[0], outside); okb {
+							if st, isSl := args[0].Type().Underlying().(*types.Slice); isSl {
+								add(vc.memName(st.Elem()), base)
+								continue
+							}
+						}
+					}
+				}
+				// a callee under contract whose modifies clauses are all "param.field" with the
+				// argument for param defined outside the loop writes only through that reference
+				if pairs, ok := fr.contractCallBases(x, outside); ok {
+					for _, pr := range pairs {
+						add(pr[0], pr[1])
+					}
+					continue
+				}
 				names, _ := fr.callWrites(x)
 				for _, n := range names {
 					if n != "$alloc" {
@@ -119,4 +187,216 @@ func (fr *Frame) assertLoopFrame(name string, refs []Term, pre, post *Heap) {
 	}
 	al := pre.Get("$alloc")
 	vc.S.Assert(fmt.Sprintf("(forall ((r Int)) (! (=> (and (select %s r) %s) (= (select %s r) (select %s r))) :pattern ((select %s r))))", al, and(ne...), newA, oldA, newA))
+}
+
+// contractCallBases returns (heap name, reference) pairs for a call to a function under contract
+// whose modifies clauses are all of the form param.field, with loop-invariant arguments.
+func (fr *Frame) contractCallBases(x ssa.CallInstruction, outside func(ssa.Value) bool) ([][2]string, bool) {
+	vc := fr.vc
+	cc := x.Common()
+	callee := cc.StaticCallee()
+	if callee == nil || cc.IsInvoke() {
+		return nil, false
+	}
+	c := vc.P.ContractFor(callee)
+	if c == nil || c.ModAll || c.Inline || len(c.Modifies) == 0 {
+		return nil, false
+	}
+	env := vc.calleeTypeEnv(c, callee, cc)
+	var out [][2]string
+	for _, m := range c.Modifies {
+		sel, ok := m.E.(*Sel)
+		if !ok {
+			return nil, false
+		}
+		id, ok := sel.X.(*Ident)
+		if !ok {
+			return nil, false
+		}
+		k := -1
+		for i, prm := range callee.Params {
+			if prm.Name() == id.Name {
+				k = i
+			}
+		}
+		if k < 0 || k >= len(cc.Args) || !outside(cc.Args[k]) {
+			return nil, false
+		}
+		if _, isPtr := cc.Args[k].Type().Underlying().(*types.Pointer); !isPtr {
+			return nil, false
+		}
+		bv := fr.val(cc.Args[k])
+		if bv.P != nil {
+			return nil, false
+		}
+		names := env.modNames(m.E)
+		if len(names) != 1 {
+			return nil, false
+		}
+		out = append(out, [2]string{names[0], vc.term(bv)})
+	}
+	return out, true
+}
+
+// stableSliceField recognises x = *(&root.f) (a slice-typed field loaded inside the loop) where root is
+// loop-invariant and no instruction of the loop writes the field f; it returns the base of the slice
+// the field holds on loop entry.
+func (fr *Frame) stableSliceField(li *loopInfo, x ssa.Value, outside func(ssa.Value) bool) (Term, bool) {
+	vc := fr.vc
+	u, ok := x.(*ssa.UnOp)
+	if !ok {
+		return "", false
+	}
+	fa, ok := u.X.(*ssa.FieldAddr)
+	if !ok || !outside(fa.X) {
+		return "", false
+	}
+	if _, isSl := x.Type().Underlying().(*types.Slice); !isSl {
+		return "", false
+	}
+	fnames := fr.staticHeapNames(fa)
+	if len(fnames) != 1 || fnames[0] == "*" {
+		return "", false
+	}
+	for b := range li.blocks {
+		for _, in := range b.Instrs {
+			switch y := in.(type) {
+			case *ssa.Store:
+				for _, n := range fr.staticHeapNames(y.Addr) {
+					if n == fnames[0] || n == "*" {
+						return "", false
+					}
+				}
+			case ssa.CallInstruction:
+				if _, isGo := in.(*ssa.Go); isGo {
+					return "", false
+				}
+				ns, all := fr.callWrites(y)
+				if all {
+					return "", false
+				}
+				for _, n := range ns {
+					if n == fnames[0] {
+						return "", false
+					}
+				}
+			}
+		}
+	}
+	bv := fr.val(fa.X)
+	if bv.P != nil {
+		return "", false
+	}
+	p := vc.fieldPtr(bv, fa.Field)
+	if p == nil {
+		return "", false
+	}
+	v := vc.loadPtr(p, fr.cur)
+	if v == nil {
+		return "", false
+	}
+	return vc.slice(v).Base, true
+}
+
+// rootAllocIn reports whether the address chain of v (field, index, slice steps) starts at a local
+// variable allocated inside the loop.
+func rootAllocIn(li *loopInfo, v ssa.Value) bool {
+	for {
+		switch x := v.(type) {
+		case *ssa.FieldAddr:
+			v = x.X
+		case *ssa.IndexAddr:
+			v = x.X
+		case *ssa.Slice:
+			v = x.X
+		case *ssa.Alloc:
+			return li.blocks[x.Block()]
+		default:
+			return false
+		}
+	}
+}
+
+// appendOnlyField recognises append(root.f, ...) where root is loop-invariant and, inside the loop, the
+// field f is only ever assigned the result of appending to itself. The field then holds either the
+// slice it held on loop entry or one allocated later, so element writes touch only the entry base or
+// memory that did not exist on loop entry. Returns that entry base.
+func (fr *Frame) appendOnlyField(li *loopInfo, x ssa.Value, outside func(ssa.Value) bool) (Term, bool) {
+	vc := fr.vc
+	u, ok := x.(*ssa.UnOp)
+	if !ok {
+		return "", false
+	}
+	fa, ok := u.X.(*ssa.FieldAddr)
+	if !ok || !outside(fa.X) {
+		return "", false
+	}
+	fnames := fr.staticHeapNames(fa)
+	if len(fnames) != 1 || fnames[0] == "*" {
+		return "", false
+	}
+	sameField := func(a ssa.Value) bool {
+		o, ok := a.(*ssa.FieldAddr)
+		return ok && o.X == fa.X && o.Field == fa.Field
+	}
+	for b := range li.blocks {
+		for _, in := range b.Instrs {
+			switch y := in.(type) {
+			case *ssa.Store:
+				touches := false
+				for _, n := range fr.staticHeapNames(y.Addr) {
+					if n == fnames[0] || n == "*" {
+						touches = true
+					}
+				}
+				if !touches {
+					continue
+				}
+				if !sameField(y.Addr) {
+					return "", false
+				}
+				call, isCall := y.Val.(*ssa.Call)
+				if !isCall {
+					return "", false
+				}
+				bi, isB := call.Call.Value.(*ssa.Builtin)
+				if !isB || bi.Name() != "append" {
+					return "", false
+				}
+				ld, isLd := call.Call.Args[0].(*ssa.UnOp)
+				if !isLd || !sameField(ld.X) {
+					return "", false
+				}
+			case ssa.CallInstruction:
+				if _, isGo := in.(*ssa.Go); isGo {
+					return "", false
+				}
+				if _, isB := y.Common().Value.(*ssa.Builtin); isB {
+					continue
+				}
+				ns, all := fr.callWrites(y)
+				if all {
+					return "", false
+				}
+				for _, n := range ns {
+					if n == fnames[0] {
+						return "", false
+					}
+				}
+			}
+		}
+	}
+	bv := fr.val(fa.X)
+	if bv.P != nil {
+		return "", false
+	}
+	p := vc.fieldPtr(bv, fa.Field)
+	if p == nil {
+		return "", false
+	}
+	v := vc.loadPtr(p, fr.cur)
+	if v == nil {
+		return "", false
+	}
+	return vc.slice(v).Base, true
 }
